@@ -63,6 +63,7 @@ type Frame struct {
 	OnReturn   func(st *State, caller *Frame, res []Val)
 	OnPanic    func(st *State, caller *Frame, v Term)
 	paramTypes map[string]types.Type
+	Top        bool
 	LoopSeen   map[*ssa.BasicBlock]bool
 	Entry      *State // snapshot at entry (for old())
 	Params     map[string]Val
